@@ -34,8 +34,15 @@ def gen_script(rng, nops):
     nc = rng.choice([1, 2, 2, 3])
     lines = ["screen %d %d %d %d" % (W, H, ps, mr),
              "cursor %d %d %d %d" % (rng.randint(1, 5), rng.randint(1, 5), rng.randint(0, 2), rng.randint(0, 2))]
+    soft = set()
     for c in range(nc):
-        lines += ["client %d" % c, "setenc %d %d 1" % (c, rng.randint(0, 1))]
+        cs = 0 if rng.random() < 0.25 else 1
+        if not cs:
+            soft.add(c)
+        lines += ["client %d" % c, "setenc %d %d %d" % (c, rng.randint(0, 1), cs)]
+    defer = rng.choice([0, 0, 0, 5, 40])
+    if defer:
+        lines.append("defer %d" % defer)
     lastd = None
 
     def states():
@@ -85,17 +92,23 @@ def gen_script(rng, nops):
                 x, y = rng.choice([0, W - 1, W, W + 1, 65535]), rng.choice([0, H - 1, H, H + 1])
                 w, h = rng.choice([0, 1, W, W + 3, 65535]), rng.choice([0, 1, H, H + 3, 65535])
             lines.append("req %d %d %d %d %d %d" % (c, incr, x, y, w, h))
-        elif r < 0.95:
+        elif r < 0.90:
             lines.append("update %d" % rng.randrange(nc))
+        elif r < 0.93:
+            lines.append("clock %d" % rng.choice([1, 999, 1000, 4999, 5001, 39999, 40001, 100000, 999999, 1000000, 3000000]))
+        elif r < 0.96:
+            lines.append("ptr %d %d" % (rng.randint(0, W + 3), rng.randint(0, H + 3)))
         else:
-            lines.append("setenc %d %d 1" % (rng.randrange(nc), rng.randint(0, 1)))
+            c = rng.randrange(nc)
+            cs = 0 if c in soft else 1
+            lines.append("setenc %d %d %d" % (c, rng.randint(0, 1), cs))
         states()
     # drain: every client asks for everything and is updated until idle
     for c in range(nc):
         for _ in range(3 if ps == 0 else 3 + H // ps + 1):
-            lines += ["req %d 1 0 0 %d %d" % (c, W, H), "update %d" % c]
+            lines += ["req %d 1 0 0 %d %d" % (c, W, H), "clock 1000000", "update %d" % c, "clock 1000000", "update %d" % c]
         lines.append("state %d" % c)
-    return "\n".join(lines) + "\n", dict(W=W, H=H, ps=ps, mr=mr, nc=nc)
+    return "\n".join(lines) + "\n", dict(W=W, H=H, ps=ps, mr=mr, nc=nc, soft=sorted(soft), defer=defer)
 
 
 def split_oracle(lines):
@@ -125,7 +138,7 @@ def py_oracle(script, plain, oracle_lines, meta):
     prev_op = None
     for op, ob in zip(ops, plain):
         t = op.split()
-        if t[0] in ("draw", "mark", "copyrgn", "setenc", "cursor"):
+        if t[0] in ("draw", "mark", "copyrgn", "setenc", "cursor", "ptr"):
             quiet_since = {}
             pend_nonincr = {}
         elif t[0] == "req" and ob == "ok":
@@ -147,9 +160,9 @@ def py_oracle(script, plain, oracle_lines, meta):
                     if not (w > 0 and h > 0 and 0 <= x and x + w <= W and 0 <= y and y + h <= H
                             and 0 <= sx and sx + w <= W and 0 <= sy and sy + h <= H):
                         return "CopyRect %r leaves the screen" % ((x, y, w, h, sx, sy),)
-                if quiet_since.get(c) and (raws or copies):
+                if quiet_since.get(c) and (raws or copies) and c not in meta.get("soft", []):
                     return "incremental request while up to date produced pixel data: %s" % ob
-                if c in pend_nonincr and prev_op and prev_op.startswith("req %d 0" % c):
+                if c in pend_nonincr and prev_op and prev_op.startswith("req %d 0" % c) and not meta.get("defer"):
                     cov = set()
                     for (x1, y1, x2, y2) in raws:
                         cov.update((i, j) for i in range(x1, x2) for j in range(y1, y2))
@@ -158,7 +171,7 @@ def py_oracle(script, plain, oracle_lines, meta):
                     miss = pend_nonincr[c] - cov
                     if miss:
                         return "non-incremental request not fully resent: %d pixels missing e.g. %r" % (len(miss), sorted(miss)[0])
-            elif quiet_since.get(c) is None and c in pend_nonincr and pend_nonincr[c] and prev_op and prev_op.startswith("req %d 0" % c):
+            elif quiet_since.get(c) is None and c in pend_nonincr and pend_nonincr[c] and prev_op and prev_op.startswith("req %d 0" % c) and not meta.get("defer"):
                 return "non-incremental request for client %d produced no update" % c
             pend_nonincr.pop(c, None)
         elif t[0] == "state":
@@ -247,8 +260,8 @@ def run(ctx):
         "evaluations": len(scripts), "distinct_nontrivial": len(seen),
         "rule": "random histories of draw/mark (incl. out-of-range, inverted), multi-rectangle copy regions in all directions with repeated/different offsets, incremental/non-incremental requests (incl. degenerate and out-of-range), SetEncodings toggling CopyRect, updates, for 1..3 clients, progressive slicing and maxRectsPerUpdate on/off; non-trivial = distinct script in which at least one update carried CopyRect rectangles",
         "samples": samples, "distribution": dist, "failures": fails[:6],
-        "partial": ["deferUpdateTime > 0 (time-based deferral) is not modelled: the harness uses 0",
-                    "soft-cursor clients (no cursor-shape support) are covered by C15; all clients here enable XCursor",
+        "partial": ["soft-cursor clients: region state and emitted rectangles are compared exactly, their PICTURE (cursor overlay) is C15's subject and is not compared here",
+                    "pointer moves change only the `extra` pixels of Step.send; the all-histories theorem (model_converges) is stated per fixed pointer position",
                     "scaled clients are covered by C17",
                     "encodings other than Raw/CopyRect: the scheduling is encoding independent (region arithmetic precedes encoding); pixel exactness per encoding is C01"],
         "assumptions": ["the application reports every change (draw is always followed by mark of the same rectangle; copies use rfbDoCopyRegion)",
@@ -259,6 +272,6 @@ def run(ctx):
 META = {
     "technique": "Lean 4: inductive invariant over all interleavings on a set-level spec (pixel sets), CopyRect order-safety theorem, executable region-level model on top of the proved region algebra; tied by exact differential run of region state + emitted rectangles against the real server, plus the invariant evaluated directly on the implementation",
     "level_text": "Proof: USpec (set level) has the convergence invariant Inv proved for every transition and hence every reachable state of every interleaving; sequential application of CopyRects in the emitted order equals the simultaneous copy (all directions, all well-formed regions). The executable region-level model (built on the C11 model whose operations are proved to be set algebra) is compared exactly with the implementation's modifiedRegion/copyRegion/requestedRegion/offset after every operation and with every emitted rectangle; the invariant itself is also evaluated on the implementation (decoded client picture vs framebuffer).",
-    "level_note": "Trusted: Lean kernel; harness/driver/generators (testing). Modelled: mark, schedule-copy (incl. cursor rules), request clipping, SetEncodings CopyRect/cursor flags, send condition, region arithmetic of rfbSendFramebufferUpdate, progressive slicing, maxRectsPerUpdate, emission order. Not modelled: time-based deferral, soft cursor painting (C15), scaling (C17), threads (C13).",
+    "level_note": "Trusted: Lean kernel; harness/driver/generators (testing). Modelled: mark, schedule-copy (incl. cursor rules), request clipping, SetEncodings CopyRect/cursor flags, send condition, region arithmetic of rfbSendFramebufferUpdate, progressive slicing, maxRectsPerUpdate, emission order. Deferral (deferUpdateTime>0) is modelled with a virtual clock (Update/Defer.lean). Not modelled: soft cursor painting (C15), scaling (C17), threads (C13).",
     "design_ref": "DESIGN.md section 7, C02",
 }
